@@ -157,8 +157,19 @@ theorem gen_sse2_rounds_are_portable :
     Gen.CpuPaths.sse2RoundCodeSameAsPortable = true ∧ Gen.CpuPaths.sse2K = Sha256.K := by
   decide
 
-/-- the 64 immediates of the sixteen `RNDMSG` lines of `sha256_shani.c` are `K₀ … K₆₃` -/
-theorem gen_shani_constants : Gen.CpuPaths.shaniK = Sha256.K := by decide
+/-- `sha256_shani.c`: the 64 immediates of the sixteen `RNDMSG` lines are `K₀ … K₆₃`; the byte selector of
+    `be32dec_128`; the four `0x1B` state shuffles; `RND4` (order of `K` in `IMM4`, which of `S[0]`/`S[1]` each
+    `SHA256RNDS2` reads and writes, the 8-byte shift between them); `MSG4` (`W[(i+k) % 4]` offsets, `PALIGNR`
+    by 4); `RNDMSG` (`if (i < 12) MSG4(W, i + 4)`); the straight-line shape of the function -/
+theorem gen_shani_constants :
+    Gen.CpuPaths.shaniK = Sha256.K ∧
+    Gen.CpuPaths.shaniBswapSel = [12, 13, 14, 15, 8, 9, 10, 11, 4, 5, 6, 7, 0, 1, 2, 3] ∧
+    Gen.CpuPaths.shaniStateShuf = [0x1B, 0x1B, 0x1B, 0x1B] ∧
+    Gen.CpuPaths.shaniRnd4 = [3, 2, 1, 0, 1, 1, 0, 8, 0, 0, 1] ∧
+    Gen.CpuPaths.shaniMsg4 = [0, 0, 1, 0, 0, 3, 2, 4, 0, 0, 3] ∧
+    Gen.CpuPaths.shaniRndMsg = [12, 4] ∧
+    Gen.CpuPaths.shaniShapeRecognised = true := by
+  decide
 
 /-- `PSRLQ` by 17 (19) on a 64-bit lane that holds the same 32-bit word twice leaves `ROTR¹⁷`
     (`ROTR¹⁹`) of that word in the low half — the trick behind `s1_128_low/high` -/
@@ -202,14 +213,56 @@ theorem sse2_schedule_needs_a_block (block : Bytes) (h : block.length ≠ 64) : 
 theorem sse2_transform_eq_compress (H : Sha256.Regs) (block : Bytes) (h : block.length = 64) :
     transformSse2 H block = some (Sha256.compress H block) := transformSse2_eq H block h
 
-/-- … hence any sequence of SSE2 transforms equals the specification's chaining, so SHA-256 run
-    through the SSE2 path is `Spec.Sha256.hash` by C01's generic Merkle–Damgård theorem (whose
-    compression function is a parameter). -/
-theorem sse2_absorb_eq_spec (H : Sha256.Regs) (blocks : List Bytes) (h : ∀ b ∈ blocks, b.length = 64) :
-    absorbSse2 H blocks = some (blocks.foldl Sha256.compress H) := absorbSse2_eq H blocks h
-
-example : absorbSse2 Sha256.H0 [0x61 :: 0x62 :: 0x63 :: 0x80 :: (List.replicate 59 0 ++ [0x18])] =
+example : transformSse2 Sha256.H0 (0x61 :: 0x62 :: 0x63 :: 0x80 :: (List.replicate 59 0 ++ [0x18])) =
     some ⟨0xba7816bf, 0x8f01cfea, 0x414140de, 0x5dae2223, 0xb00361a3, 0x96177a9c, 0xb410ff61, 0xf20015ad⟩ := by
   decide +kernel
+
+/-! ## P3: SHA-NI -/
+
+/-- `RND4` of `sha256_shani.c` (two `SHA256RNDS2` with the SDM's semantics, `S[0] = ABEF`,
+    `S[1] = CDGH`) is four FIPS 180-4 rounds on the working variables -/
+theorem shani_rnd4_is_four_rounds (r : Sha256.Regs) (w : V4) (k0 k1 k2 k3 : UInt32) :
+    rnd4 ⟨abef r, cdgh r⟩ w k0 k1 k2 k3 =
+      ⟨abef (Sha256.round (Sha256.round (Sha256.round (Sha256.round r k0 w.x0) k1 w.x1) k2 w.x2) k3 w.x3),
+       cdgh (Sha256.round (Sha256.round (Sha256.round (Sha256.round r k0 w.x0) k1 w.x1) k2 w.x2) k3 w.x3)⟩ :=
+  rnd4_eq r w k0 k1 k2 k3
+
+/-- `MSG4` of `sha256_shani.c` (`SHA256MSG1`, `PALIGNR`, `SHA256MSG2`) computes the same four
+    schedule words as `MSG4` of `sha256_sse2.c`, i.e. (`sse2_msg4_eq_schedule`) the FIPS recurrence -/
+theorem shani_msg4_eq_schedule (X0 X1 X2 X3 : V4) (older : List UInt32) :
+    Sha256.extend 4 (X3.lanes.reverse ++ X2.lanes.reverse ++ X1.lanes.reverse ++ X0.lanes.reverse ++ older) =
+      (msg4ni X0 X1 X2 X3).lanes.reverse ++
+        (X3.lanes.reverse ++ X2.lanes.reverse ++ X1.lanes.reverse ++ X0.lanes.reverse ++ older) := by
+  rw [msg4ni_eq]; exact extend4 X0 X1 X2 X3 older
+
+example : msg4ni ⟨1, 2, 3, 4⟩ ⟨5, 6, 7, 8⟩ ⟨9, 10, 11, 12⟩ ⟨13, 14, 15, 16⟩ =
+    ⟨67559435, 101367821, 3020350282, 1107812741⟩ := by decide
+
+/-- **`SHA256_Transform_shani` is the FIPS 180-4 compression function** for every chaining value
+    and every 64-byte block (state shuffles in and out, `be32dec_128`, sixteen `RNDMSG`). -/
+theorem shani_transform_eq_compress (H : Sha256.Regs) (block : Bytes) (h : block.length = 64) :
+    transformShani H block = some (Sha256.compress H block) := transformShani_eq H block h
+
+example : transformShani Sha256.H0 (0x61 :: 0x62 :: 0x63 :: 0x80 :: (List.replicate 59 0 ++ [0x18])) =
+    some ⟨0xba7816bf, 0x8f01cfea, 0x414140de, 0x5dae2223, 0xb00361a3, 0x96177a9c, 0xb410ff61, 0xf20015ad⟩ := by
+  decide +kernel
+
+theorem shani_transform_needs_a_block (H : Sha256.Regs) (block : Bytes) (h : block.length ≠ 64) :
+    transformShani H block = none := by
+  simp [transformShani, loadBlockNi, h]
+
+/-- **Feature selection cannot change a SHA-256 chaining value.**  Any sequence of 64-byte blocks,
+    each compressed by whichever accelerated variant (SSE2 or SHA-NI; the choice may differ per
+    block), yields exactly the specification's chaining `foldl compress`; so SHA-256 through any
+    mixture of paths is `Spec.Sha256.hash` by C01's generic Merkle–Damgård theorem, whose compression
+    function is a parameter.  (The portable variant = `Spec.Sha256.compress` is C01's
+    `sha256_transform_eq_fips`.) -/
+theorem sha_any_accel_path_eq_spec (H : Sha256.Regs) (calls : List (ShaPath × Bytes))
+    (h : ∀ pb ∈ calls, pb.2.length = 64) :
+    absorbAccel H calls = some ((calls.map (·.2)).foldl Sha256.compress H) := absorbAccel_eq H calls h
+
+example : absorbAccel Sha256.H0 [(.shani, List.replicate 64 0x61), (.sse2, List.replicate 64 0x62)] =
+    some ([List.replicate 64 0x61, List.replicate 64 0x62].foldl Sha256.compress Sha256.H0) :=
+  sha_any_accel_path_eq_spec _ _ (by decide)
 
 end Percival.C03
